@@ -124,6 +124,13 @@ Fixpoint is_prefix (a b : list commitment) : bool :=
 
 Definition is_nil {A} (l : list A) : bool := match l with [] => true | _ => false end.
 
+(* the [fail_at]-th Send never happens among [n] messages *)
+Definition no_failure (fail_at : option nat) (n : nat) : bool :=
+  match fail_at with None => true | Some k => Nat.leb n k end.
+(* the failing Send was the last of [n] messages handed to the stream *)
+Definition stopped_at (fail_at : option nat) (n : nat) : bool :=
+  match fail_at with None => false | Some k => Nat.eqb n (S k) end.
+
 Definition check_send (req : option request) (ans : sender_answer) (fail_at : option nat)
                       (o_verdict o_res : N) (o_calls : list forwarded) (o_streamed : list commitment)
   : option string :=
@@ -145,7 +152,13 @@ Definition check_send (req : option request) (ans : sender_answer) (fail_at : op
               let im := images cs in
               if negb (is_prefix o_streamed (fst im)) then Some "commitment-differs"%string
               else if (o_res =? 0) && negb (Nat.eqb (length o_streamed) (length cs)) then Some "commitment-differs"%string
-              else if snd im && is_nil (match fail_at with None => [] | Some k => [k] end) && negb (o_res =? 0)
+              (* no Send failed (the oracle never fails, or its failing index lies beyond the
+                 received list) and every element was complete: the call must end normally *)
+              else if snd im && no_failure fail_at (length cs) && negb (o_res =? 0)
+                   then Some "commitment-differs"%string
+              (* the stream's own error is returned only for the Send that failed, and the
+                 call stops right after that message *)
+              else if (o_res =? 3) && negb (stopped_at fail_at (length o_streamed))
                    then Some "commitment-differs"%string
               else None
           end
